@@ -47,12 +47,12 @@ LEVEL = {
 }
 # engine -> tier -> (runs, wall budget seconds for the batch)
 BUDGET = {
-    "faultsim": {"quick": (160, 420), "thorough": (2400, 3000)},
-    "evalsim": {"quick": (160, 420), "thorough": (7200, 3000)},
-    "prangesim": {"quick": (800, 300), "thorough": (60000, 2400)},
-    "paramsim": {"quick": (3000, 300), "thorough": (180000, 2400)},
-    "fssim": {"quick": (240, 420), "thorough": (12000, 3000)},
-    "regsim": {"quick": (6000, 300), "thorough": (600000, 2400)},
+    "faultsim": {"quick": (320, 420), "thorough": (2400, 3000)},
+    "evalsim": {"quick": (240, 420), "thorough": (7200, 3000)},
+    "prangesim": {"quick": (1600, 300), "thorough": (60000, 2400)},
+    "paramsim": {"quick": (6000, 300), "thorough": (180000, 2400)},
+    "fssim": {"quick": (480, 420), "thorough": (12000, 3000)},
+    "regsim": {"quick": (12000, 300), "thorough": (600000, 2400)},
 }
 DETERMINISM_SAMPLE = 6
 FIXED_BASE = 10_000_000  # run indices >= FIXED_BASE address an engine's deterministic fixed plans
@@ -104,9 +104,9 @@ def cmd_worker(a) -> int:
     indices = [int(x) for x in spec.split(",") if x != ""]
     events_for = {int(x) for x in (a.events_for or "").split(",") if x != ""}
     t_start = time.time()
-    # one run may take at most a quarter of the batch allowance (and never more than 300 s): a run that does not come
+    # one run may take at most a seventh of the batch allowance (and never more than 300 s): a run that does not come
     # back must be discarded long before the worker's hard wall-clock kill
-    per_run_limit = min(float(getattr(eng, "PER_RUN_LIMIT_S", 300)), max(30.0, (a.wall or 1200) / 4.0))
+    per_run_limit = min(float(getattr(eng, "PER_RUN_LIMIT_S", 300)), max(30.0, (a.wall or 1200) / 7.0))
 
     def on_alarm(signum, frame):
         raise core.RunTimeout()
